@@ -722,6 +722,14 @@ class Impl:
             return "."
         return ";".join(f"{ad},{hx(h)},{hx(text)},{hx(stage)}" for (ad, h), text, stage in rows)
 
+    def c_sim_wi(self, a):
+        # the public per-instruction entry point of the instruction memory system
+        k = int(a[0])
+        if k > len(self.sim.state.instruction_memory.get_representation()):
+            return "bad-op"
+        self.sim.state.instruction_memory.write_instruction(4 * k, make_instr(a[1]))
+        return "ok"
+
     def c_sim_listingtext(self, a):
         rows = self.sim.get_instruction_memory_entries()
         if not rows:
